@@ -310,3 +310,26 @@ def multisig_matching(opcode: OneOf(0xae, 0xaf), script: Bytes(cls=CScript), sta
     ensures(implies(opcode == 0xae, stack[len(stack) - 1] == ite(msig_result(old(stack), script, inIdx), b'\x01', b'')))
     ensures(implies(opcode == 0xaf, msig_result(old(stack), script, inIdx)))
     ensures(stack[:len(stack) - ite(opcode == 0xae, 1, 0)] == old(stack)[:len(stack) - ite(opcode == 0xae, 1, 0)])
+
+
+# ---- the library's own pure-Python RIPEMD-160 (used by OP_RIPEMD160, OP_HASH160 and every address hash) ------------
+@contract('bitcoin.core.contrib.ripemd160:ripemd160', name='ripemd160_is_reference', prop=P6)
+def ripemd160_is_reference(data: Bytes):
+    """BOUNDED: equals RIPEMD-160 (hashlib's implementation) for every length 0..200 - every residue mod 64, both sides
+    of the one- and two-block padding boundaries (55/56, 119/120) - and sampled longer inputs"""
+    option(bounded=400)
+    ensures(result == ripemd160(data))
+
+
+_rmd_state = {'n': 0}
+
+
+def _gen_rmd(rng):
+    n = _rmd_state['n']
+    _rmd_state['n'] += 1
+    ln = n if n <= 200 else rng.choice([247, 248, 311, 312, 503, 504, 520, 1000, rng.randint(201, 2000)])
+    return {'data': {'__bytes__': [rng.getrandbits(8) for _ in range(ln)], 'cls': 'builtins:bytes'}}
+
+
+from pyvc import replay as _replay_rmd
+_replay_rmd.GENERATORS['ripemd160_is_reference'] = _gen_rmd
